@@ -67,7 +67,11 @@ func c10Run(kv kvi.KVInterface, tag string) {
 		name := "w" + string(rune('0'+s))
 		switch vChoice(name+".op", 6) {
 		case 0:
+			// an arbitrary one-byte value, or the empty value
 			k, v := c10Key(name+".k"), []byte{vNondetByte(name + ".v")}
+			if vChoice(name+".empty", 2) == 1 {
+				v = []byte{}
+			}
 			vAssert(id("set-ok"), kv.Set(k, v) == nil)
 			model.set(k, v)
 		case 1:
